@@ -75,10 +75,12 @@ def cases(run: lib.Run, scale: int = 1):
         for j, c2 in enumerate(REL_TEMPLATES):
             if quick and (i * 7 + j) % 3:
                 continue
-            for algo in gen.ALGOS:
+            # the rule's own declared type(s) never enter the lookup: the triple is built from the REQUEST's resource
+            rtypes = ["*", ["file", "doc"], "doc", ["img", "*"], ["file", "doc", "img"]]
+            for ai, algo in enumerate(gen.ALGOS):
                 pol = {"algorithm": algo, "rules": [
-                    {"id": "a", "effect": "permit", "actions": ["read"], "resource": {"type": "*"}, "condition": c1},
-                    {"id": "b", "effect": "deny", "actions": ["read"], "resource": {"type": "*"}, "condition": c2}]}
+                    {"id": "a", "effect": "permit", "actions": ["read"], "resource": {"type": rtypes[(i + j + ai) % 5]}, "condition": c1},
+                    {"id": "b", "effect": "deny", "actions": ["read"], "resource": {"type": rtypes[(i + 2 * j + ai + 1) % 5]}, "condition": c2}]}
                 for qi, req in enumerate(reqs):
                     t = tables[(i + j + qi) % len(tables)]
                     cfg = {"strict": False}
